@@ -179,4 +179,140 @@ Section OneQueue.
           rewrite (qchunk_fragmented k j0 A), En in Ef. discriminate.
         * intros k0 j0 A B. right. apply Hdone; assumption.
   Qed.
+
+  (* ---------- a complete set made of fragments of message k is the whole message, in order ---------- *)
+  Lemma qchunk_inj k j j' : 0 <= j < nfr k -> 0 <= j' < nfr k -> qchunk k j = qchunk k j' -> j = j'.
+  Proof.
+    intros A B E. apply (f_equal rqc_tsn) in E. cbn [qchunk rqc_tsn] in E.
+    pose proof (Hnfr k). unfold wrap32 in E. lia.
+  Qed.
+
+  Lemma map_nth_ext {A} (f : Z -> A) : forall (cs : list A) (a : nat),
+    (forall i c, nth_error cs i = Some c -> c = f (Z.of_nat (a + i))) ->
+    cs = map f (map Z.of_nat (seq a (length cs))).
+  Proof.
+    induction cs as [|c t IH]; intros a H; [reflexivity|]. cbn [length seq map]. f_equal.
+    - rewrite (H 0%nat c eq_refl). f_equal. f_equal. lia.
+    - apply IH. intros i c' Hi. rewrite (H (S i) c' Hi). f_equal. f_equal. lia.
+  Qed.
+
+  Lemma last_nth_error {A} (cs : list A) d : cs <> [] -> nth_error cs (length cs - 1) = Some (last cs d).
+  Proof.
+    induction cs as [|c t IH]; [congruence|]. intros _. destruct t as [|c' t']; [reflexivity|].
+    cbn [length]. replace (S (S (length t')) - 1)%nat with (S (length (c' :: t') - 1)) by (cbn [length]; lia).
+    cbn [nth_error]. rewrite IH by discriminate. reflexivity.
+  Qed.
+
+  Lemma complete_is_message k cs :
+    Forall (fun c => exists j, 0 <= j < nfr k /\ c = qchunk k j) cs -> rqs_complete cs = true -> cs = qmsg k.
+  Proof.
+    intros HF HC. apply rqs_complete_iff in HC. destruct HC as (c0 & t & E & Hb & He & Hcon).
+    assert (Hidx : forall i c, nth_error cs i = Some c -> c = qchunk k (Z.of_nat i) /\ Z.of_nat i < nfr k).
+    { induction i as [|i IH]; intros c Hc.
+      - rewrite E in Hc. cbn in Hc. inversion Hc; subst c. rewrite E in HF. inversion HF as [|? ? H0 _]. destruct H0 as (j & A & B).
+        rewrite B in Hb. cbn [qchunk rqc_beg] in Hb. assert (j = 0) by lia. subst j. split; [exact B|lia].
+      - destruct (nth_error cs i) as [x|] eqn:Ex.
+        + destruct (IH x eq_refl) as [Ex' Hi]. assert (Hin : In c cs) by (eapply nth_error_In; exact Hc).
+          eapply Forall_forall in HF; [|exact Hin]. destruct HF as (j & A & B).
+          pose proof (Hcon i x c Ex Hc) as Ht. rewrite Ex', B in Ht. cbn [qchunk rqc_tsn] in Ht.
+          pose proof (Hnfr k). apply e2e_tsn_step in Ht; try lia. split; [rewrite B; f_equal; lia|lia].
+        + exfalso. apply nth_error_None in Ex. assert (X : nth_error cs (S i) <> None) by congruence.
+          apply nth_error_Some in X. lia. }
+    assert (Hne : cs <> []) by (rewrite E; discriminate).
+    assert (Hlen : Z.of_nat (length cs) = nfr k).
+    { pose proof (last_nth_error cs c0 Hne) as HL. destruct (Hidx _ _ HL) as [EL Hlt].
+      rewrite EL in He. cbn [qchunk rqc_end] in He.
+      assert (length cs <> 0)%nat by (destruct cs; [congruence|cbn; lia]). lia. }
+    unfold qmsg, js. rewrite <- Hlen, Nat2Z.id. apply map_nth_ext. intros i c Hc. apply Hidx. exact Hc.
+  Qed.
+
+  Lemma wrap16_succ m : wrap16 (wrap16 m + 1) = wrap16 (m + 1).
+  Proof. unfold wrap16. rewrite Zplus_mod_idemp_l. reflexivity. Qed.
+
+  Lemma In_js j n : In j (js n) <-> 0 <= j < n.
+  Proof.
+    unfold js. rewrite in_map_iff. split.
+    - intros (i & <- & Hi). apply in_seq in Hi. lia.
+    - intros H. exists (Z.to_nat j). split; [lia|]. apply in_seq. lia.
+  Qed.
+
+  (* a read: either it delivers exactly the next message, or it changes nothing *)
+  Lemma QInv_read q m P b :
+    QInv q m P ->
+    match snd (rq_read q b) with
+    | RdOk n ppi del => del = qmsg m /\ ppi = mppi m /\ QInv (fst (rq_read q b)) (m + 1) P
+    | _ => fst (rq_read q b) = q
+    end.
+  Proof.
+    intros (Hi & Hu & Hs & Hn & Hm & Hsets & Hnd & Hdone).
+    unfold rq_read. rewrite Hi, Hu.
+    destruct (rq_ordered q) as [|x rest] eqn:EO; [reflexivity|].
+    destruct (rqs_complete (rqs_chunks x)) eqn:Ec; cbn [negb]; [|reflexivity].
+    destruct (sna16GT (rqs_key x) (rq_nextSSN q)) eqn:Eg; [reflexivity|].
+    rewrite rq_copy_short_iff. destruct (rq_short b (rqs_chunks x)); [reflexivity|]. cbn [fst snd].
+    inversion Hsets as [|? ? (k & Rk & Kk & Pk & Nk & Fk) Hrest]; subst.
+    rewrite Kk, Hn in Eg. apply (e2e_gt_cursor m k Rk) in Eg. subst k.
+    assert (Emsg : rqs_chunks x = qmsg m).
+    { apply complete_is_message; [|exact Ec]. eapply Forall_impl; [|exact Fk]. intros c (j & A & B & _). exists j. auto. }
+    split; [exact Emsg|]. split; [exact Pk|].
+    unfold QInv, rq_set_next. cbn [rq_inter rq_unordered rq_si rq_nextSSN rq_ordered].
+    cbn [map] in Hnd. inversion Hnd as [|? ? Hnotin Hnd']; subst.
+    repeat split; try assumption; try lia.
+    - rewrite Kk, Hn, Z.eqb_refl. apply wrap16_succ.
+    - apply Forall_forall. intros y Hy. eapply Forall_forall in Hrest; [|exact Hy].
+      destruct Hrest as (k & Rk' & Kk' & Rest). exists k. split; [|split; [exact Kk'|exact Rest]].
+      assert (k <> m). { intros ->. apply Hnotin. rewrite Kk, <- Kk'. apply in_map. exact Hy. }
+      lia.
+    - intros k j A B. destruct (Z.eq_dec k m) as [->|]; [|apply Hdone; lia].
+      assert (Hin : In (qchunk m j) (rqs_chunks x)).
+      { rewrite Emsg. unfold qmsg. apply in_map. apply In_js. exact B. }
+      eapply Forall_forall in Fk; [|exact Hin]. destruct Fk as (j0 & A0 & B0 & C0).
+      replace j with j0; [exact C0|]. symmetry. eapply qchunk_inj; eassumption.
+  Qed.
+
+  (* ---------- histories on one queue ---------- *)
+  Inductive qop := QPush (k j : Z) | QRead (b : Z).
+
+  Definition qstep (q : rq) (o : qop) : rq :=
+    match o with QPush k j => fst (rq_push q (qchunk k j)) | QRead b => fst (rq_read q b) end.
+
+  Definition qout (q : rq) (o : qop) : list (list rqchunk * Z) :=
+    match o with
+    | QRead b => match snd (rq_read q b) with RdOk _ ppi del => [(del, ppi)] | _ => [] end
+    | _ => []
+    end.
+
+  Fixpoint qouts (q : rq) (ops : list qop) : list (list rqchunk * Z) :=
+    match ops with [] => [] | o :: t => qout q o ++ qouts (qstep q o) t end.
+
+  (* hypotheses on a history: fragments exist, none is pushed twice (C05: the receive bitmap accepts a
+     TSN once), and H_ssn: a fragment pushed belongs to a message less than 2^15 ahead of the number of
+     messages read so far *)
+  Fixpoint qvalid (m : Z) (P : list (Z * Z)) (q : rq) (ops : list qop) : Prop :=
+    match ops with
+    | [] => True
+    | QPush k j :: t => 0 <= k /\ 0 <= j < nfr k /\ ~ In (k, j) P /\ k < m + 32768 /\
+                        qvalid m ((k, j) :: P) (qstep q (QPush k j)) t
+    | QRead b :: t => qvalid (m + Z.of_nat (length (qout q (QRead b)))) P (qstep q (QRead b)) t
+    end.
+
+  Definition msgs_from (m : Z) (n : nat) : list (list rqchunk * Z) :=
+    map (fun i => (qmsg (m + Z.of_nat i), mppi (m + Z.of_nat i))) (seq 0 n).
+
+  Lemma one_queue_prefix : forall ops q m P,
+    QInv q m P -> qvalid m P q ops -> qouts q ops = msgs_from m (length (qouts q ops)).
+  Proof.
+    induction ops as [|o t IH]; intros q m P HI HV; [reflexivity|]. cbn [qouts].
+    destruct o as [k j|b]; cbn [qvalid] in HV.
+    - destruct HV as (A & B & C & D & HV). cbn [qout app]. eapply IH; [|exact HV].
+      cbn [qstep]. apply QInv_push; assumption.
+    - pose proof (QInv_read q m P b HI) as HR. cbn [qout qstep] in *.
+      destruct (snd (rq_read q b)) as [n ppi del| |].
+      + destruct HR as (-> & -> & HI'). cbn [length app] in *.
+        specialize (IH _ _ _ HI' HV). rewrite IH at 1. unfold msgs_from. cbn [length seq map].
+        replace (m + Z.of_nat 0) with m by lia. f_equal. rewrite <- seq_shift, map_map.
+        apply map_ext. intros i. replace (m + 1 + Z.of_nat i) with (m + Z.of_nat (S i)) by lia. reflexivity.
+      + cbn [length app] in *. rewrite HR in *. replace (m + Z.of_nat 0) with m in HV by lia. eapply IH; eassumption.
+      + cbn [length app] in *. rewrite HR in *. replace (m + Z.of_nat 0) with m in HV by lia. eapply IH; eassumption.
+  Qed.
 End OneQueue.
